@@ -96,9 +96,18 @@ func sameViolation(a, b *Violation) bool {
 // fails with the same class, bounded by wall time. Every candidate is a
 // complete re-execution in a fresh bubble.
 func Minimise(t *testing.T, p *Profile, rr *RunResult, budgetSec int) *RunResult {
+	return MinimiseN(t, p, rr, budgetSec, 0)
+}
+
+// MinimiseN bounds the search by a number of candidate executions as well (0 = no bound).
+// The wall-clock bound is a backstop only: when it ends the search, the result says so
+// (MinIncomplete) and the driver goes on minimising before it judges the trace.
+func MinimiseN(t *testing.T, p *Profile, rr *RunResult, budgetSec, maxCand int) *RunResult {
 	if budgetSec <= 0 {
 		budgetSec = 60
 	}
+	cands := 0
+	timedOut := false
 	deadline := time.Now().Add(time.Duration(budgetSec) * time.Second)
 	want := rr.Violation
 	best := rr
@@ -111,10 +120,21 @@ func Minimise(t *testing.T, p *Profile, rr *RunResult, budgetSec int) *RunResult
 	}
 	best = first
 	best.OrigSteps = len(rr.Trace)
-	try := func(tr []Step) bool {
+	stop := func() bool {
+		if maxCand > 0 && cands >= maxCand {
+			return true
+		}
 		if time.Now().After(deadline) {
+			timedOut = true
+			return true
+		}
+		return false
+	}
+	try := func(tr []Step) bool {
+		if stop() {
 			return false
 		}
+		cands++
 		c := RunOne(t, p, RunOpts{Seed: rr.Seed, Config: cfg, Trace: tr, Replay: true})
 		if sameViolation(c.Violation, want) {
 			c.OrigSteps = len(rr.Trace)
@@ -129,7 +149,7 @@ func Minimise(t *testing.T, p *Profile, rr *RunResult, budgetSec int) *RunResult
 	}
 	// ddmin over steps
 	n := 2
-	for len(best.Trace) >= 2 && time.Now().Before(deadline) {
+	for len(best.Trace) >= 2 && !stop() {
 		tr := best.Trace
 		chunk := (len(tr) + n - 1) / n
 		reduced := false
@@ -161,7 +181,7 @@ func Minimise(t *testing.T, p *Profile, rr *RunResult, budgetSec int) *RunResult
 		}
 	}
 	// simplify the steps that are left: drop faults, drop single edits
-	for changed := true; changed && time.Now().Before(deadline); {
+	for changed := true; changed && !stop(); {
 		changed = false
 		for i := range best.Trace {
 			st := best.Trace[i]
@@ -170,6 +190,22 @@ func Minimise(t *testing.T, p *Profile, rr *RunResult, budgetSec int) *RunResult
 				cand[i].Net, cand[i].DB = "", nil
 				if try(cand) {
 					changed = true
+					continue
+				}
+			}
+			if len(st.Sub) > 1 {
+				// parallel section: drop one concurrent call at a time (the schedule of
+				// the section is a function of its seed and what is left)
+				dropped := false
+				for k := range st.Sub {
+					cand := append([]Step(nil), best.Trace...)
+					cand[i].Sub = append(append([]Step(nil), st.Sub[:k]...), st.Sub[k+1:]...)
+					if try(cand) {
+						changed, dropped = true, true
+						break
+					}
+				}
+				if dropped {
 					continue
 				}
 			}
@@ -191,5 +227,7 @@ func Minimise(t *testing.T, p *Profile, rr *RunResult, budgetSec int) *RunResult
 	if !sameViolation(final.Violation, want) {
 		best.Infra = "minimised trace is not stable"
 	}
+	best.MinIncomplete = timedOut
+	best.MinCandidates = cands
 	return best
 }
